@@ -17,6 +17,7 @@ IR terms (hashable tuples):
   ('join', alt0, alt1, ...)       tf.while_loop summary (any of the iterates)
 """
 import ast
+import os
 from fractions import Fraction
 import math
 
@@ -256,6 +257,33 @@ TYPE_NAMES = {
 class FloatTag(Fraction):
   """A Fraction that came from a float literal / float-valued operation.
   Only isinstance(v, float/int) tests observe the difference."""
+
+
+# developer aid: which repository functions the interpreter entered
+# (QKSTAT_COVER=<file> appends them at exit)
+COVERAGE = None
+if os.environ.get("QKSTAT_COVER"):
+  import atexit
+  import json as _json
+  COVERAGE = set()
+
+  def _dump_cover():
+    path = os.environ["QKSTAT_COVER"]
+    try:
+      old = set(map(tuple, _json.load(open(path))))
+    except Exception:  # pylint: disable=broad-except
+      old = set()
+    _json.dump(sorted(old | COVERAGE), open(path, "w"))
+  atexit.register(_dump_cover)
+
+
+class FormattedNumber(str):
+  """The text of one number produced by "{:.nf}".format(x)."""
+
+  def __new__(cls, value):
+    o = str.__new__(cls, "<formatted number>")
+    o.value = value
+    return o
 
 
 class NArr(list):
@@ -854,6 +882,36 @@ class PE(object):
       if isinstance(obj, Tensor):
         return Tensor(("app", "slice", (), (obj.term,)), None)
       self.err("slice of %r" % (obj,), node)
+    if isinstance(obj, NDArr):
+      # numpy indexing of a concrete array: integers, `...` and `:`
+      key = self.eval(node.slice, frames, module)
+      key = list(key) if isinstance(key, tuple) else [key]
+      key = [Ellipsis if isinstance(k, Opaque) and k.desc == "..." else k
+             for k in key]
+      if any(not (k is Ellipsis or isinstance(k, (int, Fraction)))
+             for k in key) or sum(1 for k in key if k is Ellipsis) > 1:
+        self.err("index %r of %r" % (key, obj), node)
+      rank = len(obj.shape)
+      if Ellipsis in key:
+        i = key.index(Ellipsis)
+        key = key[:i] + [None] * (rank - len(key) + 1) + key[i + 1:]
+      key = key + [None] * (rank - len(key))
+
+      def pick(v, ks):
+        if not ks:
+          return v
+        if ks[0] is None:
+          return [pick(e, ks[1:]) for e in v]
+        try:
+          return pick(v[int(ks[0])], ks[1:])
+        except IndexError:
+          raise PyRaise("IndexError", "index out of range")
+      r = pick(obj.nested, key)
+      if not isinstance(r, list):
+        return r
+      if r and isinstance(r[0], list):
+        return NDArr(r)
+      return NArr(r)
     idx = self.index_key(self.eval(node.slice, frames, module))
     if isinstance(obj, ShapeV):
       return obj.dims[idx]
@@ -869,6 +927,9 @@ class PE(object):
         raise PyRaise("KeyError", repr(idx))
       return obj[idx]
     if isinstance(obj, Tensor):
+      if obj.term[0] == "c":
+        # every element of a uniform constant tensor is that constant
+        return Tensor(obj.term, None)
       return Tensor(("app", "index", (), (obj.term,)), None)
     if isinstance(obj, Mock) and "__getitem__" in obj.attrs:
       return obj.attrs["__getitem__"](self, [idx], {})
@@ -928,7 +989,7 @@ class PE(object):
     for op, rn in zip(node.ops, node.comparators):
       right = self.eval(rn, frames, module)
       r = self.compare(op, left, right, node)
-      if isinstance(r, (Tensor, list)):
+      if isinstance(r, (Tensor, list, NDArr)):
         if len(node.ops) != 1:
           self.err("chained tensor comparison", node)
         return r
@@ -938,6 +999,10 @@ class PE(object):
     return result
 
   def compare(self, op, a, b, node=None):
+    if isinstance(a, NDArr) and (is_num(b) or isinstance(b, bool)) and \
+        isinstance(op, (ast.Lt, ast.LtE, ast.Gt, ast.GtE, ast.Eq, ast.NotEq)):
+      return NDArr.from_flat([self.compare(op, x, b, node)
+                              for x in a.flat()], a.shape)
     if (isinstance(a, NArr) or isinstance(b, NArr)) and isinstance(
         op, (ast.Lt, ast.LtE, ast.Gt, ast.GtE, ast.Eq, ast.NotEq)):
       if isinstance(a, NArr) and isinstance(b, NArr) and len(a) == len(b):
@@ -1049,6 +1114,9 @@ class PE(object):
       return C(int(v))
     if isinstance(v, (int, Fraction)):
       return C(v)
+    if isinstance(v, NArr):
+      # a concrete per-channel constant vector
+      return ("app", "const_array", (tuple(fr(e) for e in v),), ())
     if isinstance(v, (list, tuple)):
       # small constant vectors are treated element-wise identical only when
       # uniform
@@ -1065,6 +1133,28 @@ class PE(object):
     if hasattr(a, "gram_op") or hasattr(b, "gram_op"):
       from . import gram
       return gram.binop(self, op, a, b)
+    if isinstance(a, NDArr) or isinstance(b, NDArr):
+      # element-wise on equal shapes or with a scalar
+      if isinstance(a, NDArr) and isinstance(b, NDArr):
+        if a.shape != b.shape:
+          self.err("broadcast of arrays %r and %r" % (a, b))
+        return NDArr.from_flat([self.binop(op, x, y) for x, y in
+                                zip(a.flat(), b.flat())], a.shape)
+      if isinstance(a, NDArr) and (is_num(b) or isinstance(b, (bool,
+                                                               Tensor))):
+        return NDArr.from_flat([self.binop(op, x, b) for x in a.flat()],
+                               a.shape)
+      if isinstance(b, NDArr) and (is_num(a) or isinstance(a, (bool,
+                                                               Tensor))):
+        return NDArr.from_flat([self.binop(op, a, y) for y in b.flat()],
+                               b.shape)
+      self.err("arithmetic on %r and %r" % (a, b))
+    for u, v, left in ((a, b, True), (b, a, False)):
+      if isinstance(u, NArr) and isinstance(v, Tensor) and any(
+          isinstance(e, Tensor) for e in u):
+        # an array of symbolic scalars with a symbolic scalar
+        return NArr((self.binop(op, e, v) if left else self.binop(op, v, e))
+                    for e in u)
     if isinstance(a, Tensor) or isinstance(b, Tensor):
       ta, tb = self.as_term(a), self.as_term(b)
       sh = a.shape if isinstance(a, Tensor) and a.shape is not None else (
@@ -1298,6 +1388,12 @@ class PE(object):
       self.err("call depth exceeds %d (recursion?) in %s" %
                (self.MAX_DEPTH, f.name))
     saved = (self.cur_module, self.cur_node)
+    if COVERAGE is not None:
+      try:
+        COVERAGE.add((f.module.relpath, getattr(f.node, "name", "<lambda>"),
+                      f.node.lineno))
+      except AttributeError:
+        pass
     try:
       node = f.node
       a = node.args
@@ -1460,6 +1556,14 @@ class PE(object):
       if n == "join":
         return r.join(str(s) for s in self.iterate(args[0]))
       if n == "format":
+        # "{0:.2f}".format(x): a number rendered with a fixed number of
+        # decimals; float() of it gives the number back (the rounding to
+        # that many decimals is not modelled)
+        import re as _re
+        if len(args) == 1 and not kwargs and _re.fullmatch(
+            r"\{0?(:\.\d+f)?\}", r) and (
+                isinstance(args[0], Tensor) or is_num(args[0])):
+          return FormattedNumber(args[0])
         return "<formatted>"
       if n in ("startswith", "endswith", "split", "replace", "lower",
                "upper", "strip", "find", "rfind", "count", "isdigit",
